@@ -693,12 +693,22 @@ pub(crate) fn openat2<Fd: AsFd, P: AsRef<Path>>(
         how.flags |= libc::O_NOCTTY as u64;
     }
 
+    // A path with an interior NUL byte cannot be passed to the kernel as-is,
+    // give the same error rustix gives for the other wrappers.
+    let c_path = path.to_c_string().map_err(|_| Error::Openat2 {
+        dirfd: dirfd.into(),
+        path: path.into(),
+        how: how.clone(),
+        size: std::mem::size_of::<OpenHow>(),
+        source: Errno::INVAL,
+    })?;
+
     // SAFETY: Obviously safe-to-use Linux syscall.
     let fd = unsafe {
         libc::syscall(
             libc::SYS_openat2,
             dirfd.as_raw_fd(),
-            path.to_c_string().as_ptr(),
+            c_path.as_ptr(),
             &how as *const OpenHow,
             std::mem::size_of::<OpenHow>(),
         )
